@@ -623,8 +623,8 @@ def parts(tier):
             SMT("cmp_equals_number", "vflib.props.c05:kernel_comparators", {"K": 16, "W": 8, "timeout": 120, "kinds": ["equals", "number", "number_default", "any_only_number", "any_only_equals"]}, timeout=400),
             SMT("cmp_percent", "vflib.props.c05:kernel_comparators", {"K": 16, "W": 8, "timeout": 150, "kinds": ["percent"]}, timeout=400),
             SMT("cmp_percent_default", "vflib.props.c05:kernel_comparators", {"K": 16, "W": 8, "timeout": 150, "kinds": ["percent_default", "any_default"]}, timeout=400),
-            SMT("cmp_any", "vflib.props.c05:kernel_comparators", {"K": 16, "W": 8, "timeout": 150, "kinds": ["any", "any_only_percent"]}, timeout=600),
-            SMT("cmp_percent_as_constructed", "vflib.props.c05:kernel_percent_concrete", {"K": 16, "W": 8, "timeout": 60}, timeout=900),
+            SMT("cmp_any", "vflib.props.c05:kernel_comparators", {"K": 16, "W": 8, "timeout": 150, "kinds": ["any", "any_only_percent"]}, timeout=400),
+            SMT("cmp_percent_as_constructed", "vflib.props.c05:kernel_percent_concrete", {"K": 16, "W": 8, "timeout": 60}, timeout=400),
             CH("table4", "vflib.props.c05:scen_table", {"models": 4}, shards=12, timeout=170, path_timeout=30),
             CH("table2x2rounds", "vflib.props.c05:scen_table", {"models": 2, "rounds": 2, "wraps": True}, shards=2, timeout=170, path_timeout=30),
             CH("real", "vflib.props.c05:scen_real", {"keys": 4, "policies": ["default", "percent_50", "number_2"]}, shards=3, timeout=170, path_timeout=30),
@@ -632,16 +632,16 @@ def parts(tier):
             CH("cli_three_roots", "vflib.props.c05:scen_cli_roots", {"keys": 4}, shards=16, timeout=170, path_timeout=30),
         ]
     return [
-        SMT("cmp_equals_number", "vflib.props.c05:kernel_comparators", {"K": 64, "W": 8, "timeout": 600, "cross_check": True, "kinds": ["equals", "number", "number_default", "any_only_number", "any_only_equals"]}, timeout=3000),
+        SMT("cmp_equals_number", "vflib.props.c05:kernel_comparators", {"K": 64, "W": 8, "timeout": 600, "cross_check": True, "kinds": ["equals", "number", "number_default", "any_only_number", "any_only_equals"]}, timeout=400),
         SMT("cmp_percent", "vflib.props.c05:kernel_comparators", {"K": 64, "W": 8, "timeout": 1500, "cross_check": True, "kinds": ["percent"]}, timeout=4000),
         SMT("cmp_percent_default", "vflib.props.c05:kernel_comparators", {"K": 64, "W": 8, "timeout": 1500, "cross_check": True, "kinds": ["percent_default", "any_default"]}, timeout=4000),
         SMT("cmp_any", "vflib.props.c05:kernel_comparators", {"K": 64, "W": 8, "timeout": 1500, "cross_check": True, "kinds": ["any", "any_only_percent"]}, timeout=6000),
         SMT("cmp_percent_as_constructed", "vflib.props.c05:kernel_percent_concrete", {"K": 64, "W": 8, "timeout": 120, "all": True}, timeout=6000),
-        CH("table5", "vflib.props.c05:scen_table", {"models": 5, "wraps": False}, shards=16, timeout=700, path_timeout=30),
-        CH("table4wraps", "vflib.props.c05:scen_table", {"models": 4, "wraps": True}, shards=16, timeout=700, path_timeout=30),
-        CH("table2x2rounds", "vflib.props.c05:scen_table", {"models": 2, "rounds": 2, "wraps": True}, shards=2, timeout=600, path_timeout=30),
-        CH("table3x2rounds", "vflib.props.c05:scen_table", {"models": 3, "rounds": 2, "wraps": False}, shards=6, timeout=900, path_timeout=30),
-        CH("real", "vflib.props.c05:scen_real", {"keys": 4}, shards=8, timeout=700, path_timeout=30),
+        CH("table5", "vflib.props.c05:scen_table", {"models": 5, "wraps": False}, shards=16, timeout=400, path_timeout=30),
+        CH("table4wraps", "vflib.props.c05:scen_table", {"models": 4, "wraps": True}, shards=16, timeout=400, path_timeout=30),
+        CH("table2x2rounds", "vflib.props.c05:scen_table", {"models": 2, "rounds": 2, "wraps": True}, shards=2, timeout=400, path_timeout=30),
+        CH("table3x2rounds", "vflib.props.c05:scen_table", {"models": 3, "rounds": 2, "wraps": False}, shards=6, timeout=400, path_timeout=30),
+        CH("real", "vflib.props.c05:scen_real", {"keys": 4}, shards=8, timeout=400, path_timeout=30),
     ]
 
 
